@@ -204,6 +204,12 @@ def oracle(run, cfg):
     for e in run.errors:
         bad.append(("harness-error", e))
     n = len(cfg)
+    # an operation must end with its documented outcome: ok / message / ConnectionError / "nothing to
+    # receive" for a non-blocking receive; never IndexError, KeyError or another RuntimeError
+    for t in range(n):
+        for z in run.results[t]:
+            if z[1] in ("indexerr", "keyerr", "runtime"):
+                bad.append(("op-crashed", f"thread {t} {cfg[t]['key']} op {z[0]} {cfg[t]['ops'][z[0]]} raised {z[1]}"))
     by_key = {}
     for t, th in enumerate(cfg):
         by_key.setdefault(tuple(th["key"]), []).append(t)
